@@ -134,7 +134,18 @@ def work(item):
         npaths += 1
         if kind == 'abort':
             if val.inconclusive:
-                res['inconclusive'].append('abort %s %r' % (val.why, item[:5]))
+                prob = None
+                if ctx.check() == 'sat' and 'n' in st:
+                    for (jj, ii) in ((0, 0), (st['n'] - 1, st['n'] - 1), (1, 0)):
+                        prob, sv = replay(ctx.model(), jj, ii)       # the float run may decide what the symbolic run could not finish
+                        if prob:
+                            break
+                if prob:
+                    res['obligations'] += 1
+                    res['violations'].append(('vpar:%s' % edge, '%s (witness from the float run; symbolic run: %s) [%r]' % (prob, val.why, item[:5]),
+                                              dict(kind='vpar', item=[str(x) for x in item[:5]], s=str(sv))))
+                else:
+                    res['inconclusive'].append('abort %s %r' % (val.why, item[:5]))
             continue
         if kind == 'exc':
             res['obligations'] += 1
